@@ -34,7 +34,7 @@ class C14:
     prop = "C14"
     level = "exploration"
     chunk = 2
-    rule = ("run = one (policy, environment) pair of the allow-list (seeded choice over 25 pairs) x a tiny "
+    rule = ("run = one (policy, environment) pair of the allow-list (seeded choice over 28 pairs) x a tiny "
             "policy whose weights are a function of the plan (embed 32, 1-2 layers, random normalisation "
             "kind, non-trivial batch-norm running statistics), eval() mode, greedy decoding (for some runs "
             "greedy multi-start / PolyNet's k strategies) x 3-5 generator instances; each instance is "
@@ -44,7 +44,7 @@ class C14:
             "per-item rewards are compared with the solo rewards).  Non-trivial = at "
             "least one composition with B>=2 was compared row by row with the solo results; distinct = "
             "distinct event-log digest.")
-    components_real = ["rl4co.models.zoo.{am,ptrnet,ham,mdam,polynet,symnco,matnet,l2d} policies (encoder, "
+    components_real = ["rl4co.models.zoo.{am,ptrnet,ham,mdam,polynet,symnco,matnet,l2d} policies and the MVMoE variant of the attention model (MoE feed-forward blocks in encoder and decoder) (encoder, "
                        "decoder, env embeddings, attention, normalisation)",
                        "rl4co.utils.decoding (Greedy strategy, multistart hook, get_log_likelihood)",
                        "rl4co.envs.* reset/step/get_reward of 15 environments", "rl4co generators",
